@@ -8,6 +8,7 @@ from ..dataflow import flow_of
 from ..model import AnalysisError, FuncInfo, Program, body_walk, calls_in_body, dotted, norm, parent
 from ..poly import Poly, PolyEnv
 from ..report import Result
+from ..normalform import canon
 
 TITLE = "Bit packing and unpacking are exact inverses at every depth and bit order"
 LEVEL = "proof"
@@ -296,6 +297,149 @@ def kernel_map(prog: Program, res: Result, name: str, kind: str, nbits: int, ord
     return it.stores
 
 
+def _fold_const(e: ast.AST, env: dict):
+    """Value of a small expression over string constants (a selector such as `"big" if x[0] == "b" else "little"`), or None
+    when it is not decidable by constant folding."""
+    try:
+        if isinstance(e, ast.Constant):
+            return e.value
+        if isinstance(e, ast.Name):
+            return env.get(e.id)
+        if isinstance(e, ast.Subscript):
+            v = _fold_const(e.value, env)
+            if isinstance(e.slice, ast.Slice):
+                lo = _fold_const(e.slice.lower, env) if e.slice.lower is not None else None
+                hi = _fold_const(e.slice.upper, env) if e.slice.upper is not None else None
+                return v[lo:hi] if v is not None and e.slice.step is None else None
+            i = _fold_const(e.slice, env)
+            return v[i] if v is not None and i is not None else None
+        if isinstance(e, ast.Dict):
+            ks = [_fold_const(k, env) for k in e.keys]
+            vs = [_fold_const(v, env) for v in e.values]
+            return None if any(k is None for k in ks) else dict(zip(ks, vs))
+        if isinstance(e, (ast.Tuple, ast.List, ast.Set)):
+            vs = [_fold_const(x, env) for x in e.elts]
+            return None if any(v is None for v in vs) else tuple(vs)
+        if isinstance(e, ast.IfExp):
+            t = _fold_const(e.test, env)
+            return None if t is None else _fold_const(e.body if t else e.orelse, env)
+        if isinstance(e, ast.UnaryOp) and isinstance(e.op, ast.Not):
+            t = _fold_const(e.operand, env)
+            return None if t is None else (not t)
+        if isinstance(e, ast.BoolOp):
+            vs = [_fold_const(v, env) for v in e.values]
+            if any(v is None for v in vs):
+                return None
+            return all(vs) if isinstance(e.op, ast.And) else any(vs)
+        if isinstance(e, ast.Compare) and len(e.ops) == 1:
+            a, b = _fold_const(e.left, env), _fold_const(e.comparators[0], env)
+            if a is None or b is None:
+                return None
+            op = e.ops[0]
+            return {ast.Eq: a == b, ast.NotEq: a != b, ast.In: a in b, ast.NotIn: a not in b}.get(type(op))
+        if isinstance(e, ast.Call) and isinstance(e.func, ast.Attribute) and not e.keywords:
+            recv = _fold_const(e.func.value, env)
+            args = [_fold_const(a, env) for a in e.args]
+            if recv is None or any(a is None for a in args):
+                return None
+            if e.func.attr in ("startswith", "endswith", "lower", "upper", "strip", "get") and isinstance(recv, (str, dict)):
+                return getattr(recv, e.func.attr)(*args)
+    except Exception:  # noqa: BLE001
+        return None
+    return None
+
+
+def _vect_packer(prog: Program, res: Result) -> None:
+    """pack1_8_vect: every 8 input bytes (one uint64 word, byte k at bits 8k..8k+7) become one output byte.
+    (a) gather: `x &= mask; x *= magic; out = uint8(x >> shift)` - with mask keeping bit 0 of every byte, the product places
+        input bit b_k at positions 8k + m for every set bit m of magic; if no two (k, m) pairs collide nothing carries, and the
+        top byte (shift 56) holds, at bit p - 56, the b_k with 8k + m = p.  The resulting byte map must be the 1-bit
+        specification of the selected order (big: element k -> bit 7-k; little: element k -> bit k).
+    (b) coverage: the batch loop writes word i+j from word i+j for j < batch, advancing i by the batch; the tail loop runs
+        from that same i to the number of words, writing word j from word j."""
+    name = "pack1_8_vect"
+    if not prog.has_func(KMOD, name):
+        return
+    fn = prog.func(KMOD, name)
+    consts: dict[str, int] = {}
+    magic: dict[bool, int] = {}
+    for n_ in ast.walk(fn.node):
+        if isinstance(n_, ast.Assign) and len(n_.targets) == 1 and isinstance(n_.targets[0], ast.Name) and isinstance(n_.value, ast.Call) \
+                and (dotted(n_.value.func) or "").endswith("uint64") and len(n_.value.args) == 1 and isinstance(n_.value.args[0], ast.Constant):
+            tgt = n_.targets[0].id
+            if tgt == "magic":
+                pr = parent(n_)
+                big = isinstance(pr, ast.If) and norm(pr.test) == "big_endian" and n_ in pr.body
+                magic[big] = n_.value.args[0].value
+            else:
+                consts[tgt] = n_.value.args[0].value
+    key = f"{name}:gather"
+    ok = consts.get("mask") == 0x0101010101010101 and consts.get("shift") == 56 and set(magic) == {True, False}
+    why = "mask / shift / the two magic constants were not found as uint64 literals selected by big_endian"
+    if ok:
+        for big, mg in magic.items():
+            places: dict[int, int] = {}
+            collide = False
+            for k in range(8):
+                for m in range(64):
+                    if mg >> m & 1 and 8 * k + m < 64:
+                        collide = collide or (8 * k + m) in places
+                        places[8 * k + m] = k
+            got = {p_ - 56: k for p_, k in places.items() if p_ >= 56}
+            want = {7 - k: k for k in range(8)} if big else {k: k for k in range(8)}
+            if collide or got != want:
+                ok = False
+                why = (f"magic constant 0x{mg:016x} ({'big' if big else 'little'}-endian): " +
+                       ("two input bits land on the same position of the product (carries corrupt the byte)" if collide else
+                        f"output bit -> element map is {got}, the 1-bit {'big' if big else 'little'} specification is {want}"))
+    (res.ok if ok else res.bad)("R1", fn, fn.node, "pack1_8_vect gathers bit 0 of each of 8 bytes into one byte in the selected order, without carries "
+                                "(shown from mask, magic and shift)" if ok else f"pack1_8_vect: {why}", construct=name, key=key)
+    # the statements of the gather itself
+    flow = flow_of(fn)
+    stores = [s_ for s_ in body_walk(fn.node) if isinstance(s_, ast.Assign) and isinstance(s_.targets[0], ast.Subscript) and norm(s_.targets[0].value) == "packed"]
+    key = f"{name}:coverage"
+    okc = len(stores) == 2
+    whyc = "expected one store in the batch loop and one in the tail loop"
+    if okc:
+        def word_index(st):
+            loads = [n_ for blk in [parent(st).body] for b_ in blk for n_ in ast.walk(b_)
+                     if isinstance(n_, ast.Subscript) and isinstance(n_.ctx, ast.Load) and norm(flow.expand(n_.value, flow.cfg.node_for(b_))).endswith(".view(np.uint64)")]
+            return [norm(l.slice) for l in loads]
+        loops = [parent(st) for st in stores]
+        wl = next((n_ for n_ in body_walk(fn.node) if isinstance(n_, ast.While)), None)
+        batch_for = next((l for l in loops if isinstance(l, ast.For) and wl is not None and parent(l) is wl), None)
+        tail_for = next((l for l in loops if isinstance(l, ast.For) and l is not batch_for), None)
+        if wl is None or batch_for is None or tail_for is None:
+            okc, whyc = False, "expected `while i ...: for j in range(batch): ...` followed by a tail `for`"
+        else:
+            cnt = norm(wl.test.left) if isinstance(wl.test, ast.Compare) else "?"
+            nwords = None
+            fexp = lambda e, at: canon(flow.expand(e, flow.cfg.node_for(at)))  # noqa: E731
+            st_b = next(s_ for s_ in stores if parent(s_) is batch_for)
+            st_t = next(s_ for s_ in stores if parent(s_) is tail_for)
+            jb, jt = norm(batch_for.target), norm(tail_for.target)
+            batch = batch_for.iter.args[0] if isinstance(batch_for.iter, ast.Call) and dotted(batch_for.iter.func) == "range" and len(batch_for.iter.args) == 1 else None
+            steps = [s_ for s_ in wl.body if isinstance(s_, ast.AugAssign) and isinstance(s_.op, ast.Add) and norm(s_.target) == cnt]
+            if isinstance(tail_for.iter, ast.Call) and dotted(tail_for.iter.func) == "range" and len(tail_for.iter.args) == 2:
+                up_ = norm(flow.expand(tail_for.iter.args[1], flow.cfg.node_for(tail_for)))
+                nwords = up_ if up_.endswith(".view(np.uint64).size") else None
+            conds = [
+                (batch is not None, "the batch loop is `for j in range(batch)`"),
+                (canon(st_b.targets[0].slice) == canon(f"{cnt} + {jb}") and word_index(st_b) == [norm(st_b.targets[0].slice)], "the batch loop writes word i+j from word i+j"),
+                (len(steps) == 1 and batch is not None and fexp(steps[0].value, steps[0]) == fexp(batch, batch_for), "i advances by the batch size"),
+                (isinstance(wl.test, ast.Compare) and len(wl.test.ops) == 1 and isinstance(wl.test.ops[0], (ast.Lt, ast.LtE)) and batch is not None and
+                 nwords is not None and fexp(wl.test.comparators[0], wl) == canon(f"{nwords} - ({norm(flow.expand(batch, flow.cfg.node_for(batch_for)))})"),
+                 "a batch runs only while a whole batch of words is left"),
+                (isinstance(tail_for.iter, ast.Call) and dotted(tail_for.iter.func) == "range" and len(tail_for.iter.args) == 2 and
+                 norm(tail_for.iter.args[0]) == cnt and nwords is not None, "the tail loop runs from the batch counter to the number of words"),
+                (norm(st_t.targets[0].slice) == jt and word_index(st_t) == [jt], "the tail loop writes word j from word j"),
+            ]
+            bad = [t for c, t in conds if not c]
+            okc, whyc = not bad, "not established: " + "; ".join(bad)
+    (res.ok if okc else res.bad)("R1", fn, fn.node, "pack1_8_vect writes every output byte exactly once from the input word of the same index (batches, then the tail)"
+                                 if okc else f"pack1_8_vect: {whyc}", construct=name, key=key)
+
+
 def run(prog: Program, res: Result, tier: str) -> None:
     prog.consulted.update({KMOD, BMOD, "sigpyproc.io.fileio"})
     maps = {}
@@ -325,6 +469,10 @@ def run(prog: Program, res: Result, tier: str) -> None:
             else:
                 res.bad("R2", fn, fn.node, f"{nbits}-bit {order}: pack/unpack are not mutual inverses "
                         f"(pack∘unpack identity: {ok1}, unpack∘pack identity: {ok2})", construct=key, key=key)
+
+    # the word-at-a-time sibling of the 1-bit packers (public, not dispatched to): same specification, shown from its
+    # constants (multiply-and-shift gather) and its index coverage
+    _vect_packer(prog, res)
 
     # R3 dispatch exhaustiveness + R4 guards, for both wrappers
     from ..cfg import simple_paths
@@ -394,6 +542,22 @@ def run(prog: Program, res: Result, tier: str) -> None:
         if nb_vals is None or ord_vals is None:
             res.bad("R3", w, ga, "cannot determine the finite value sets of the dispatch template", key=wname)
             continue
+        # every accepted spelling of the bit order selects the kernels of that order - evaluated over the finite set of
+        # spellings the guard lets through (pack and unpack must resolve `b` alike, or packing is not unpacking's inverse)
+        ord_expr = next((flow.expand(v.value, gan) for v in fs.values if not isinstance(v, ast.Constant) and dotted(v.value) != "nbits"), None)
+        bo_pred = in_set("bitorder")
+        bo_fact = pc.truth(ga, bo_pred, expanded=True)
+        spellings = sorted(bo_pred.values) if bo_fact is not None and bo_pred.values else []
+        wrong = []
+        for sp in spellings:
+            got = _fold_const(ord_expr, {"bitorder": sp}) if ord_expr is not None else None
+            want = "big" if sp[:1] == "b" else "little"
+            if got != want:
+                wrong.append(f"{sp!r} -> {got!r}")
+        okm = bool(spellings) and not wrong
+        (res.ok if okm else res.bad)("R3", w, ga, f"every accepted spelling {spellings} selects the kernels of its own order" if okm else
+                                     f"{wname}: accepted bit-order spellings select the wrong kernels ({', '.join(wrong) or 'no finite set of spellings'}): "
+                                     "the short forms must mean the same order in pack and unpack", key=wname + ":spelling")
         names = []
         for nb in sorted(nb_vals):
             for o in sorted(ord_vals):
@@ -574,9 +738,9 @@ def run(prog: Program, res: Result, tier: str) -> None:
                          "truncated to 8 bits only by the store into the u1 output",
                          "pack kernels are given in-range samples (bits above nbits are zero), which bits.pack's "
                          "callers guarantee for unpacked/quantized data"]
-    res.floor("R1", 12)
+    res.floor("R1", 14)
     res.floor("R2", 6)
-    res.floor("R3", 2)
+    res.floor("R3", 4)
     res.floor("R4", 10)
 
 
@@ -698,7 +862,19 @@ MUTANTS += [
      "old": "    if not isinstance(bitorder, str) or bitorder not in {\"big\", \"little\", \"b\", \"l\"}:\n        msg = f\"bitorder must be 'big' or 'little', got {bitorder}\"\n        raise ValueError(msg)\n    bitorder_str = \"big\" if bitorder[0] == \"b\" else \"little\"\n    # A numpy integer depth would make the size arithmetic wrap in its own width\n    bitfact = 8 // int(nbits)\n    if array.size % bitfact",
      "new": "    if not isinstance(bitorder, str) or bitorder not in {\"big\", \"little\", \"b\", \"l\", \"both\"}:\n        msg = f\"bitorder must be 'big' or 'little', got {bitorder}\"\n        raise ValueError(msg)\n    bitorder_str = \"big\" if bitorder[0] == \"b\" else \"little\"\n    # A numpy integer depth would make the size arithmetic wrap in its own width\n    bitfact = 8 // int(nbits)\n    if packed"},
 ]
+MUTANTS += [
+    {"id": "c03-vect-tail-from-zero", "file": "sigpyproc/core/kernels.py", "expect": "C03.R1",
+     "old": "    for j in range(i, nwords):\n        x = array_uint64[j]", "new": "    for j in range(nwords - i):\n        x = array_uint64[j]"},
+    {"id": "c03-vect-magic-swapped", "file": "sigpyproc/core/kernels.py", "expect": "C03.R1",
+     "old": "        magic = types.uint64(0x8040201008040201)\n    else:\n        magic = types.uint64(0x0102040810204080)", "new": "        magic = types.uint64(0x0102040810204080)\n    else:\n        magic = types.uint64(0x8040201008040201)"},
+    {"id": "c03-pack-short-spelling", "file": "sigpyproc/io/bits.py", "expect": "C03.R3",
+     "old": "    pack_func = getattr(kernels, f\"pack{nbits:d}_8_{bitorder_str}\")", "new": "    bitorder_str = \"big\" if bitorder == \"big\" else \"little\"\n    pack_func = getattr(kernels, f\"pack{nbits:d}_8_{bitorder_str}\")"},
+]
 TWINS = [
+    {"id": "c03-twin-vect-while-le", "file": "sigpyproc/core/kernels.py",
+     "old": "    while i < nwords - batch_size:", "new": "    while i <= nwords - batch_size:"},
+    {"id": "c03-twin-order-startswith", "file": "sigpyproc/io/bits.py",
+     "old": "    pack_func = getattr(kernels, f\"pack{nbits:d}_8_{bitorder_str}\")", "new": "    bitorder_str = \"big\" if bitorder.startswith(\"b\") else \"little\"\n    pack_func = getattr(kernels, f\"pack{nbits:d}_8_{bitorder_str}\")"},
     {"id": "c03-twin-ragged-guard", "file": Bf,
      "old": "    if array.size % bitfact != 0:\n", "new": "    if not (array.size % bitfact == 0):\n"},
     {"id": "c03-twin-order-tuple", "file": Bf,
